@@ -94,6 +94,28 @@ def enumerate_cases(tier, shard, nshards, seed):
 
             yield {'grid': list(seq), 'cont': CONTAINERS[k % 3] if n > 1 else CONTAINERS[(k // nshards) % 3], 'tlen': p['tlen'] if n < 3 else 4}
 
+    # structural clause on the saturated / template programs: every node x every pattern combinator (drawn cases only reach combinators 0..12)
+    progs = gen.saturated_programs()[::5] + gen.SYN_PROGRAMS
+    kk = 0
+
+    for src in progs:
+        try:
+            nn = len([1 for n, _, _, _ in em.node_targets(ast.parse(src)) if not isinstance(n, ast.expr_context)])
+        except SyntaxError:
+            continue
+
+        for ni in range(nn):
+            for comb in range(25):
+                kk += 1
+
+                if kk % nshards != shard:
+                    continue
+
+                if tier == 'quick' and (kk * 2654435761 + seed * 40503) % 3:
+                    continue
+
+                yield {'src': src, 'nsel': [ni], 'wild': [] if comb % 2 else [ni * 7 + comb], 'comb': comb, 'pert': ni * 31 + comb, 'layout': [], 'sopt': (ni + comb) % 8, 'enumerated': True}
+
     if shard == 0:
         for bi in range(len(BACKREF_SEQS)):
             for cont in CONTAINERS:
@@ -391,7 +413,7 @@ def tag_shape(m, root):
     return tuple(sorted((k, d(v)) for k, v in m.tags.items()))
 
 
-SELF_MATCH_KINDS = {'plain', 'M', 'MOR', 'MAND', 'MNOT2', 'MTYPES', 'MCB', 'MOR_MAND', 'type', 'MOR_type_cb', 'MOR_cb_types', 'MAND_MNOT_cb', 'M_MOR_MOR', 'MOR_MTYPES_cb',
+SELF_MATCH_KINDS = {'fieldwrap_M', 'fieldwrap_MAND', 'fieldwrap_MOR', 'plain', 'M', 'MOR', 'MAND', 'MNOT2', 'MTYPES', 'MCB', 'MOR_MAND', 'type', 'MOR_type_cb', 'MOR_cb_types', 'MAND_MNOT_cb', 'M_MOR_MOR', 'MOR_MTYPES_cb',
                     'MNOT2_MOR', 'MAND_MOR', 'MOR_MAND_cb'}
 
 
@@ -402,8 +424,23 @@ def _is_cls(cls):
 def build_pattern(base, comb, other_cls):
     from fst.match import M, MAND, MCB, MNOT, MOR, MRE, MTYPES
 
-    c = comb % 22
+    c = comb % 25
     bcls = base.__class__
+
+    # 22..24: the pattern is the node's own AST with every list-valued field wrapped in a non-list pattern (tagging M, MAND, MOR), so that the
+    # field reaches the list matcher as a view / through a combinator instead of as a plain list
+    if c in (22, 23, 24) and isinstance(base, ast.AST):
+        wrapped = False
+
+        for n in ast.walk(base):
+            for f in n._fields:
+                v = getattr(n, f, None)
+
+                if isinstance(v, list) and all(isinstance(e, ast.AST) or e is None or e is ... for e in v):
+                    setattr(n, f, M(**{f'w_{f}': v}) if c == 22 else MAND(v, ...) if c == 23 else MOR(other_cls, v))
+                    wrapped = True
+
+        return base, ('fieldwrap_M', 'fieldwrap_MAND', 'fieldwrap_MOR')[c - 22] if wrapped else 'plain'
 
     # 10..21: combinations that exercise search()'s node-type pre-filter: alternatives whose node type is known mixed with ones where it is not
     if c == 10:
